@@ -124,10 +124,11 @@ def run(ctx):
             ctx.floor("decode-path functions scanned for narrowing casts", len(seen_fn), 60, cfg=cfg)
         # hand-written decoders read exactly the documented (bounded) element types
         got_leaves = W.handwritten_leaves(F)
-        for key in sorted(set(got_leaves) | set(W.WANT_LEAVES)):
+        want_leaves = W.want_leaves(F)
+        for key in sorted(set(got_leaves) | set(want_leaves)):
             label = "::".join(key[1:])
-            ctx.oblige("C12|handwritten-leaf|" + label, got_leaves.get(key) == W.WANT_LEAVES.get(key),
-                       "hand-written decoder %s reads %s, documented %s: the declared width / capacity of the member is bypassed" % (label, sorted(got_leaves.get(key, [])), sorted(W.WANT_LEAVES.get(key, []))), cfg=cfg)
+            ctx.oblige("C12|handwritten-leaf|" + label, got_leaves.get(key) == want_leaves.get(key),
+                       "hand-written decoder %s reads %s, documented %s: the declared width / capacity of the member is bypassed" % (label, sorted(got_leaves.get(key, [])), sorted(want_leaves.get(key, []))), cfg=cfg)
         # "a value that is accepted is delivered whole ... except the members documented as lossy": the lossy decoders lose
         # exactly what is documented (C13's rules are a necessary condition here as well)
         from . import c13
@@ -143,6 +144,6 @@ def run(ctx):
         ctx.oblige("C12|list-decoders", not pr14.failed, "a list decoder skips or swallows entries it should reject: %s" % "; ".join("%s: %s" % (k, m[:160]) for k, m in pr14.failed[:2]), cfg=cfg)
         hand = sorted({(f["impl"]["self_ty"].get("path") or f["impl"]["self_ty"]["s"]) for f in F.fns
                        if f["name"] == "deserialize" and (f.get("impl") or {}).get("trait") == DE and f["impl"].get("impl_pv") == "user"
-                       and "__" not in f["impl"]["self_ty"]["s"] and "::deserialize::" not in f["impl"]["self_ty"]["s"]})
+                       and "__" not in f["impl"]["self_ty"]["s"] and "::deserialize::" not in f["impl"]["self_ty"]["s"]} - set(W.table_enums(F)))
         ctx.oblige("C12|handwritten", hand == sorted(spec["handwritten_decoders"]),
                    "hand-written Deserialize impls are %s, documented lossy types are %s: an unaudited decoder could alter accepted values" % (hand, sorted(spec["handwritten_decoders"])), cfg=cfg)
